@@ -479,7 +479,9 @@ impl Ranges {
                     return value.populate(args, foreign_key, locale, key_path);
                 }
             }
-            unreachable!("plurals validity should already have been checked.");
+            // integer ranges may omit the fallback (the generated `match` is then checked by rustc),
+            // but a count given in the translations must fall in one of the declared ranges
+            Err(Error::MissingFallback(T::TYPE).into())
         }
         fn try_from<T, U: TryFrom<T, Error = TryFromIntError>>(
             count: T,
